@@ -862,6 +862,66 @@ pub fn plain_pool(nm: &Names) -> Vec<F> {
     p
 }
 
+/// Formulae that EXTEND a shape the evaluator recognises as a pattern (`!{x}: AG EF {x}`, `!{x}: AX {x}`)
+/// by a condition: `!{x}: P ({x} & PHI)`, `!{x}: P (PHI & {x})`, `!{x}: (P {x}) & PHI` and the jump form, for
+/// PHI ranging over propositional, temporal and quantified conditions (some depending on `x`, some on
+/// transient states through `3{y}: @{y}:` / `V{y}: @{y}:`). Uses the proposition `a` only.
+pub fn pattern_condition_family(nm: &Names) -> Vec<F> {
+    let conds = [
+        "a",
+        "~a",
+        "EF {x}",
+        "AG a",
+        "EF ~a",
+        "(3{y}: (@{y}: (a & EF {x})))",
+        "(3{y}: (@{y}: (~a & EF {x})))",
+        "(V{y}: (@{y}: (a | ~(EF {x}))))",
+        "(V{y}: (@{y}: (~a | AG (EF {x}))))",
+        "(3{y}: ((@{y}: ~a) & EF {y}))",
+        "(3{y}: ((@{y}: a) & ~(EF {y})))",
+        "(!{y}: AG (EF {y}))",
+        "(3{y}: (@{y}: (AG (EF {y}) & EF {x})))",
+    ];
+    let mut out = vec![];
+    for p in ["AG EF", "AX", "EF AG", "AG"] {
+        for c in conds {
+            for shape in ["!{x}: PAT ({x} & COND)", "!{x}: PAT (COND & {x})", "!{x}: ((PAT {x}) & COND)", "3{x}: (@{x}: PAT ({x} & COND))", "!{x}: PAT ({x} | ~COND)"] {
+                out.push(f(&shape.replace("PAT", p).replace("COND", c), nm));
+            }
+        }
+    }
+    out.sort();
+    out.dedup();
+    out
+}
+
+/// Two-operator nests: every binary operator over every unary operator in either operand position
+/// (leaves: the propositions and True), and the same with a state variable / a closed fixed-point
+/// sub-formula as the inner operand. 4..7 nodes; systematic, not sampled.
+pub fn op_nest_family(nprops: u8) -> Vec<F> {
+    let mut leaves: Vec<F> = (0..nprops.min(2)).map(F::Prop).collect();
+    leaves.push(F::Const(true));
+    let a = |x: F| Arc::new(x);
+    let mut out = vec![];
+    for bi in ALL_BI {
+        for un in ALL_UN {
+            for l1 in &leaves {
+                for l2 in &leaves {
+                    out.push(F::Bin(bi, a(l1.clone()), a(F::Un(un, a(l2.clone())))));
+                    out.push(F::Bin(bi, a(F::Un(un, a(l1.clone()))), a(l2.clone())));
+                }
+                out.push(F::Hy(Hy::Bind, 0, None, a(F::Bin(bi, a(l1.clone()), a(F::Un(un, a(F::Var(0))))))));
+                out.push(F::Hy(Hy::Bind, 0, None, a(F::Bin(bi, a(F::Un(un, a(F::Var(0)))), a(l1.clone())))));
+                let inner = F::Hy(Hy::Bind, 1, None, a(F::Un(un, a(F::Var(1)))));
+                out.push(F::Hy(Hy::Exists, 0, None, a(F::Hy(Hy::Jump, 0, None, a(F::Bin(bi, a(l1.clone()), a(inner.clone())))))));
+            }
+        }
+    }
+    out.sort();
+    out.dedup();
+    out
+}
+
 /// Deterministic deep quantifier nests (d quantifiers on one branch, d = 4..=max): every variable is
 /// used; jumps to the outermost / a middle / the innermost variable; three operator mixes.
 pub fn deep_nests(nm: &Names, max: usize) -> Vec<F> {
